@@ -13,6 +13,7 @@ import (
 // to choose meaningful parameters, and every choice comes from r. The produced intents are recorded;
 // replay executes the recorded list and never calls Gen.
 type Gen struct {
+	backlogDone bool
 	R             *rand.Rand
 	W             *World
 	Profile       string
@@ -96,6 +97,7 @@ func weightsFor(profile string) map[string]int {
 		base["set_keys"] = 3
 	case "C16":
 		base["valset_lag"] = 3
+		base["batch_backlog"] = 1
 		base["confirm_fuzz"] = 18
 		base["sign_all"] = 6
 		base["orch_sign"] = 6
@@ -721,6 +723,11 @@ func (g *Gen) Step() {
 		g.valsetLag()
 	case "timeout_inversion":
 		g.timeoutInversion()
+	case "batch_backlog":
+		if g.R.Intn(8) == 0 && !g.backlogDone {
+			g.backlogDone = true
+			g.batchBacklog()
+		}
 	case "gov":
 		// a proposal, yes votes of every validator, then the voting period passes
 		t := g.token()
@@ -800,6 +807,35 @@ func (g *Gen) Step() {
 
 // batchRace drives one chain into the states the batch properties are about: several tokens with several
 // pending batches each, confirmed, then executed in an arbitrary order (newest first, a middle one, …).
+// batchBacklog: more than a hundred Minter batches (they never time out) pile up unsigned by validator 0 while the
+// others sign now and then: the relayer-facing lists must stay complete however long they get.
+func (g *Gen) batchBacklog() {
+	w := g.W
+	var t *TokenCfg
+	for i := range w.Cfg.Tokens {
+		if w.Cfg.Tokens[i].Chain == "minter" {
+			t = &w.Cfg.Tokens[i]
+			break
+		}
+	}
+	if t == nil {
+		return
+	}
+	w.St.Probe("batch-backlog-scenario")
+	n := 101 + g.R.Intn(5)
+	for i := 0; i < n && !w.Stopped(); i++ {
+		g.emit(Intent{T: "user_send", U: i % len(w.Users), Chain: "minter", Denom: t.Denom, Amt: "1000", Fee: strconv.Itoa(i % 7)})
+		g.emit(Intent{T: "block", Dt: 5, N: 2})
+		if i%30 == 29 && len(w.Vals) > 1 {
+			g.emit(Intent{T: "orch_sign", V: 1 + g.R.Intn(len(w.Vals)-1), Chain: "minter"})
+		}
+	}
+	if len(w.ReadState().Batches("minter")) > 100 {
+		w.St.Probe("more-than-100-pending-batches")
+	}
+	g.emit(Intent{T: "block", Dt: 5, N: 1})
+}
+
 // timeoutInversion: the external chain stands still while the hub goes on (the hub's projection of the external height
 // runs ahead), a batch is built with a timeout from that projection; then the chain's real, lower height is
 // observed and a second batch of the same token gets an EARLIER timeout than the first. The chain then moves past
